@@ -2,6 +2,9 @@ package main
 
 import (
 	"go/token"
+	"go/types"
+	"regexp"
+	"strings"
 
 	"golang.org/x/tools/go/ssa"
 )
@@ -225,6 +228,11 @@ func (fx *Facts) atomPaths(fn *ssa.Function, max int) ([]APath, bool) {
 		for _, c := range p.Conds {
 			ap.Atoms = append(ap.Atoms, fx.atomOf(c.Cond, c.Pol))
 		}
+		var feas bool
+		if ap.Atoms, feas = fx.substAtoms(&ap.Path, ap.Atoms); !feas {
+			continue
+		}
+		ap.Atoms = append(ap.Atoms, fx.entryAtomsAt(fn, nil)...)
 		ap.Atoms = fx.expandAtoms(ap.Atoms)
 		out = append(out, ap)
 	}
@@ -269,12 +277,16 @@ func (fx *Facts) boolPaths(fn *ssa.Function, max int) (truePaths, falsePaths []A
 			}
 			continue
 		}
-		t := ap
-		t.Atoms = append(append([]Atom(nil), ap.Atoms...), fx.atomOf(v, true))
-		f := ap
-		f.Atoms = append(append([]Atom(nil), ap.Atoms...), fx.atomOf(v, false))
-		truePaths = append(truePaths, t)
-		falsePaths = append(falsePaths, f)
+		if ta, feas := fx.substAtoms(&ap.Path, []Atom{fx.atomOf(v, true)}); feas {
+			t := ap
+			t.Atoms = append(append([]Atom(nil), ap.Atoms...), ta...)
+			truePaths = append(truePaths, t)
+		}
+		if fa, feas := fx.substAtoms(&ap.Path, []Atom{fx.atomOf(v, false)}); feas {
+			f := ap
+			f.Atoms = append(append([]Atom(nil), ap.Atoms...), fa...)
+			falsePaths = append(falsePaths, f)
+		}
 	}
 	return truePaths, falsePaths, true
 }
@@ -320,6 +332,11 @@ func (fx *Facts) atomPathsTo(target *ssa.BasicBlock, max int) ([]APath, bool) {
 				for _, c := range p.Conds {
 					ap.Atoms = append(ap.Atoms, fx.atomOf(c.Cond, c.Pol))
 				}
+				var feas bool
+				if ap.Atoms, feas = fx.substAtoms(&ap.Path, ap.Atoms); !feas {
+					return
+				}
+				ap.Atoms = append(ap.Atoms, fx.entryAtomsAt(fn, nil)...)
 				ap.Atoms = fx.expandAtoms(ap.Atoms)
 				out = append(out, ap)
 			}
@@ -415,4 +432,128 @@ func (p *Path) resolvePhis() bool {
 	}
 	p.Conds = out
 	return true
+}
+
+// ---------------------------------------------------------------------------
+// Non-boolean locals on a path: `var d *T; if m != nil { d = m.D }; if d == nil || f(d.X) {...}`.
+// d is a phi; on a given (acyclic) path the phi has the value of the edge the path arrived by, so atoms that
+// mention the phi are rewritten with that value: NIL(phi) becomes NIL(m.D) on the one path and the constant
+// true on the other (the atom is dropped, or the path is infeasible if the path took the opposite branch).
+// Loop-header phis are left alone: their value on later iterations is not the value of the entry edge.
+// ---------------------------------------------------------------------------
+
+var identTail = regexp.MustCompile(`^[A-Za-z0-9_]`)
+
+func replaceToken(s, tok, by string) (string, bool) {
+	if !strings.Contains(s, tok) {
+		return s, false
+	}
+	var b strings.Builder
+	hit := false
+	for {
+		i := strings.Index(s, tok)
+		if i < 0 {
+			b.WriteString(s)
+			break
+		}
+		rest := s[i+len(tok):]
+		b.WriteString(s[:i])
+		if identTail.MatchString(rest) {
+			b.WriteString(tok)
+		} else {
+			b.WriteString(by)
+			hit = true
+		}
+		s = rest
+	}
+	return b.String(), hit
+}
+
+// phiSubst: for the phis of blocks on the path (not loop headers): path string of the phi -> path string of the
+// value arriving on this path.
+func (fx *Facts) phiSubst(p *Path) [][2]string {
+	var out [][2]string
+	if len(p.Blocks) == 0 {
+		return nil
+	}
+	fi := fx.info(p.Blocks[0].Parent())
+	for i := len(p.Blocks) - 1; i > 0; i-- {
+		b := p.Blocks[i]
+		loop := false
+		for _, pred := range b.Preds {
+			if pred == b || fi.reachable(b, pred) {
+				loop = true
+			}
+		}
+		if loop {
+			continue
+		}
+		for _, in := range b.Instrs {
+			phi, ok := in.(*ssa.Phi)
+			if !ok {
+				break
+			}
+			if bt, isB := phi.Type().Underlying().(*types.Basic); isB && bt.Kind() == types.Bool {
+				continue
+			}
+			for k, pred := range b.Preds {
+				if pred == p.Blocks[i-1] {
+					out = append(out, [2]string{fx.path(phi), fx.path(phi.Edges[k])})
+				}
+			}
+		}
+	}
+	return out
+}
+
+// substAtoms adds, for atoms that mention a phi, their spelling with the path's phi values; ok=false if a rewritten atom is a constant that
+// contradicts the branch the path took.
+func (fx *Facts) substAtoms(p *Path, atoms []Atom) ([]Atom, bool) {
+	sub := fx.phiSubst(p)
+	if len(sub) == 0 {
+		return atoms, true
+	}
+	var out []Atom
+	for _, a := range atoms {
+		changed := false
+		orig := a
+		for _, s := range sub {
+			var h1, h2 bool
+			a.A, h1 = replaceToken(a.A, s[0], s[1])
+			a.B, h2 = replaceToken(a.B, s[0], s[1])
+			changed = changed || h1 || h2
+		}
+		if changed {
+			a.TA, a.TB = fx.T(a.A), fx.T(a.B)
+			// constant outcomes
+			val, known := false, false
+			switch {
+			case a.Op == "NIL" && a.A == "nil":
+				val, known = true, true
+			case a.Op == "NIL" && strings.HasPrefix(a.A, "&"):
+				val, known = false, true
+			case a.Op == "EMPTY" && a.A == "const:":
+				val, known = true, true
+			case a.Op == "EMPTY" && strings.HasPrefix(a.A, "const:"):
+				val, known = false, true
+			case a.Op == "EQ" && strings.HasPrefix(a.A, "const:") && strings.HasPrefix(a.B, "const:"):
+				val, known = a.A == a.B, true
+			case a.Op == "EQ" && a.A == a.B:
+				val, known = true, true
+			}
+			if known {
+				if val == a.Neg {
+					return nil, false
+				}
+				out = append(out, orig) // settled by the path; the original spelling stays visible to the rules
+				continue
+			}
+			if a.Op == "EQ" && a.A > a.B {
+				a.A, a.B, a.TA, a.TB = a.B, a.A, a.TB, a.TA
+			}
+			out = append(out, orig)
+		}
+		out = append(out, a)
+	}
+	return out, true
 }
